@@ -7,6 +7,7 @@ import (
 	"encoding/json"
 	"fmt"
 	"os"
+	"path"
 	"path/filepath"
 	"sort"
 	"strconv"
@@ -212,6 +213,12 @@ func fileNameToIndex(filename string) retrievedListIndex {
 	i := strings.Index(ret, "@")
 	if i > -1 {
 		ret = ret[:i]
+	}
+
+	// A local module spelled with a leading / or ./ is relative to the root, exactly like a rooted import, so
+	// /a/b.sysl, ./a/b.sysl and a/b.sysl are one file.
+	if !syslutil.IsRemoteImport(ret) {
+		ret = strings.TrimPrefix(path.Clean(ret), "/")
 	}
 
 	return retrievedListIndex(ret)
